@@ -194,8 +194,8 @@ def cause_key(unit: dict, kind: str, call: str, r: tuple, g: tuple) -> str:
     """Cause-level class of a mismatch (the stable part of the violation signature after the construct)."""
     fam = unit.get("family")
     if fam == "o":
-        # the log (state of the passed-in list) or the raising operand differs: one cause, however it shows
-        if r[2] != g[2] or kind.startswith("exception"):
+        # the log (state of the passed-in list) differs: one cause, however else it shows
+        if r[2] != g[2]:
             return "evaluation"
         return kind
     if fam == "h":
